@@ -30,6 +30,7 @@
      chain c          : 1..8, its crosschain module account is account c
      erc20 module     : account 20     ibc transfer module : account 21
      WFX contract     : account 22     evm module          : account 23   precompile address: account 24
+     ICS-20 channel escrow address : account 25
      users/contracts  : any other id (the harness uses >= 100)
      token t          : t_id; FX has t_id 0
      denoms of t      : base = 10*t_id, bridge denom on chain c = 10*t_id + c (FX: the base itself),
@@ -65,6 +66,7 @@ Definition A_IBC : Z := 21.
 Definition A_WFX : Z := 22.
 Definition A_EVM : Z := 23.
 Definition A_PRE : Z := 24.
+Definition A_ESC : Z := 25.   (* ICS-20 escrow address of the transfer channel *)
 Definition FX : Z := 0.
 
 Fixpoint find_tok (g : cfg) (t : Z) : option token :=
@@ -144,7 +146,7 @@ Definition blocked (a : Z) : bool := chain_ok a || (a =? A_ERC20) || (a =? A_IBC
 (* ---------- x/erc20 conversions (msg_server.go) ---------- *)
 (* ConvertCoin: MintingEnabled; ConvertCoinNativeCoin / ConvertCoinNativeERC20 *)
 Definition convert_coin (t : token) (sender receiver x : Z) : prog :=
-  ChkEnabled (t_id t) :: Chk (negb (blocked receiver)) ::
+  ChkEnabled (t_id t) :: Chk (negb (blocked receiver)) :: Chk (0 <? x) ::   (* sdk.Coins{coin} with a zero amount is invalid *)
   match t_kind t with
   | KFX => send sender A_ERC20 (base_of t) x ++ erc20_mint (t_id t) receiver x ++ send A_ERC20 A_WFX (base_of t) x
   | KMod => send sender A_ERC20 (base_of t) x ++ erc20_mint (t_id t) receiver x
@@ -154,7 +156,7 @@ Definition convert_coin (t : token) (sender receiver x : Z) : prog :=
 
 (* ConvertERC20: ConvertERC20NativeCoin / ConvertERC20NativeToken *)
 Definition convert_erc20 (t : token) (sender receiver x : Z) : prog :=
-  ChkEnabled (t_id t) :: Chk (negb (blocked receiver)) ::
+  ChkEnabled (t_id t) :: Chk (negb (blocked receiver)) :: Chk (0 <? x) ::
   match t_kind t with
   | KFX => erc20_burn (t_id t) sender x ++ send A_WFX A_ERC20 (base_of t) x ++ send A_ERC20 receiver (base_of t) x
   | KMod => erc20_burn (t_id t) sender x ++ send A_ERC20 receiver (base_of t) x
@@ -259,9 +261,19 @@ Definition evm_to_base (t : token) (holder x : Z) : prog := convert_erc20 t hold
 Definition ibc_to_base (t : token) (holder x : Z) : prog :=
   Chk (t_ibc t && negb (is_fx t)) ::
   send holder A_IBC (ibc_of t) x ++ mint A_IBC (base_of t) x ++ send A_IBC holder (base_of t) x.
+(* BaseCoinToIBCCoin: ManyToOne(FX, ibc target) = FX (no alias needed), so for FX the function burns the coin in the
+   transfer module and then "releases" the same denomination from the transfer module's own balance *)
 Definition base_to_ibc (t : token) (holder x : Z) : prog :=
-  Chk (t_ibc t && negb (is_fx t)) ::
-  send holder A_IBC (base_of t) x ++ burn A_IBC (base_of t) x ++ send A_IBC holder (ibc_of t) x.
+  if is_fx t
+  then send holder A_IBC (base_of t) x ++ burn A_IBC (base_of t) x ++ send A_IBC holder (base_of t) x
+  else Chk (t_ibc t) ::
+       send holder A_IBC (base_of t) x ++ burn A_IBC (base_of t) x ++ send A_IBC holder (ibc_of t) x.
+
+(* ibc-go transfer sendTransfer: the native coin is escrowed in the channel's escrow address, a voucher going back to its
+   source is sent to the transfer module and burned *)
+Definition ibc_send (t : token) (sender x : Z) : prog :=
+  if is_fx t then send sender A_ESC (base_of t) x
+  else Chk (t_ibc t) :: send sender A_IBC (ibc_of t) x ++ burn A_IBC (ibc_of t) x.
 
 (* handlerOriginToken: msg.value already moved sender -> precompile by the EVM, then precompile -> evm module -> sender *)
 Definition handler_origin_token (sender x : Z) : prog :=
@@ -412,7 +424,7 @@ Definition add_bridge_fee (t : token) (c sender id x : Z) : M := fun s =>
   match find_ptx c id (pool (sr s)) with
   | None => None
   | Some p =>
-    (guard (on_chain t c) ;; guard (p_tok p =? t_id t) ;;
+    (guard (0 <? x) ;; guard (on_chain t c) ;; guard (p_tok p =? t_id t) ;;
      doB (add_bridge_fee_prog t c sender x) ;;
      updR (fun r => set_pool ({| p_chain := c; p_id := p_id p; p_sender := p_sender p; p_tok := p_tok p; p_amt := p_amt p;
                                  p_fee := p_fee p + x |} :: del_ptx c id (pool r)) r)) s
@@ -542,10 +554,13 @@ Definition cleanup_calls (g : cfg) (c h : Z) : M := fun s =>
 Definition observe (g : cfg) (c h : Z) (handler : M) : M :=
   updR (fun r => set_height (set1 c h (height r)) r) ;; handler ;; cleanup_batches c ;; cleanup_calls g c h.
 
-(* SendToFxExecuted: target 0 = none, 1 = erc20 *)
+(* SendToFxExecuted: target 0 = none, 1 = erc20, 2 = an IBC channel (transferIBCHandler: BaseCoinToIBCCoin, then the
+   ICS-20 transfer, accounted as executed towards "chain" 9 when the packet is sent) *)
 Definition send_to_fx (t : token) (c receiver x target : Z) : M :=
   doB (bridge_token_to_base t c receiver x) ;; dep_add (t_id t) c x ;;
-  (if target =? 1 then doB (base_to_evm t receiver x) else ret).
+  (if target =? 1 then doB (base_to_evm t receiver x)
+   else if target =? 2 then doB (base_to_ibc t receiver x) ;; doB (ibc_send t receiver x) ;; exe_add (t_id t) 9 x
+   else ret).
 
 (* BridgeCallHandler: deposit to the receiver, BridgeCallEvm in a cache branch (ConvertCoin each to the receiver,
    then the EVM call whose outcome evm_ok is known from the kind of `to`); on failure the deposited base coins are
@@ -555,21 +570,38 @@ Definition bridge_call_in (g : cfg) (c receiver refund : Z) (toks : list (Z * Z)
   doB (each_tok g (fun t x => bridge_token_to_base t c receiver x) toks) ;;
   each_dep c toks ;;
   (fun s =>
-     match (if evm_ok then doB (each_tok g (fun t x => base_to_evm t receiver x) toks) s else None) with
+     (* baseCoins is an sdk.Coins: zero amounts have been dropped *)
+     match (if evm_ok then doB (each_tok g (fun t x => base_to_evm t receiver x) (pos_toks toks)) s else None) with
      | Some s' => Some s'
      | None =>
        ((if receiver =? refund then ret
-         else doB (each_tok g (fun t x => send receiver refund (base_of t) x) toks)) ;;
-        add_outgoing_bridge_call g c refund refund toks timeout) s
+         else doB (each_tok g (fun t x => send receiver refund (base_of t) x) (pos_toks toks))) ;;
+        add_outgoing_bridge_call g c refund refund (pos_toks toks) timeout) s
      end).
 
 (* ---------- precompile entry points called by an externally-owned account ---------- *)
 (* crossChain(token, ..., amount, fee, target=chain c); native = msg.value path (FX coin) *)
 Definition pre_cross_chain (t : token) (c sender amt fee : Z) (native : bool) : M :=
+  guard (0 <? amt) ;;   (* CrossChainArgs.Validate *)
   (if native then guard (is_fx t) ;; doB (handler_origin_token sender (amt + fee))
    else doB (handler_erc20_token t sender (amt + fee))) ;;
   add_to_outgoing_pool t c sender amt fee ;;
   (if native then ret else updR (fun r => set_rel ((c, get1 c (txid r)) :: rel r) r)).
+
+(* crossChain(token, ..., amount, fee = 0, target = an IBC channel): ibcTransfer; the msg.value path sends the native coin as it
+   is, the ERC-20 path converts with BaseCoinToIBCCoin first *)
+Definition pre_cross_chain_ibc (t : token) (sender amt : Z) (native : bool) : M :=
+  guard (0 <? amt) ;;
+  (if native then guard (is_fx t) ;; doB (handler_origin_token sender amt)
+   else doB (handler_erc20_token t sender amt) ;; doB (base_to_ibc t sender amt)) ;;
+  doB (ibc_send t sender amt) ;; exe_add (t_id t) 9 amt.
+
+(* an inbound ICS-20 packet through the transfer stack (ibc-go transfer, then the fx middleware), receiver a hex address.
+   The native coin coming back is released from the channel escrow.  Any other denomination: ibc-go mints the voucher and
+   gives it bank metadata BEFORE the middleware runs, so ManyToOne takes the voucher for a base denom of its own, the
+   conversion to ERC-20 finds no pair, the acknowledgement is an error and ibc-go core discards everything. *)
+Definition ibc_recv (t : token) (a x : Z) : M :=
+  if is_fx t then doB (send A_ESC a (base_of t) x) ;; dep_add (t_id t) 9 x else fail.
 
 (* bridgeCall(dstChain c, refund, tokens, amounts, ...) with msg.value = value *)
 Definition pre_bridge_call (g : cfg) (c sender refund value : Z) (toks : list (Z * Z)) (timeout : Z) : M :=
@@ -610,7 +642,9 @@ Inductive op :=
 | OWfxWithdraw (a x : Z)                                     (* WFX.withdraw(x) *)
 | OIbcMint (t a x : Z)                                       (* inbound IBC packet: voucher minted to a *)
 | OIbcToBase (t a x : Z)                                     (* IBCCoinToBaseCoin *)
-| OBaseToIbc (t a x : Z).                                    (* BaseCoinToIBCCoin *)
+| OBaseToIbc (t a x : Z)                                     (* BaseCoinToIBCCoin *)
+| OPreCrossChainIbc (t sender amt : Z) (native : bool)       (* precompile crossChain with an IBC target *)
+| OIbcRecv (t a x : Z).                                      (* inbound ICS-20 packet through the real transfer stack *)
 
 Definition with_tok (g : cfg) (t : Z) (f : token -> M) : M :=
   match find_tok g t with Some tk => f tk | None => fail end.
@@ -624,20 +658,22 @@ Definition toggle (t : Z) : M := fun s =>
 Definition run (g : cfg) (o : op) : M :=
   match o with
   | OSendToFx c t r x tg => with_tok g t (fun tk => send_to_fx tk c r x tg)
-  | OSendToExternal c t a amt fee => with_tok g t (fun tk => add_to_outgoing_pool tk c a amt fee)
+  | OSendToExternal c t a amt fee =>   (* ValidateBasic: amount and bridge fee positive *)
+      guard ((0 <? amt) && (0 <? fee)) ;; with_tok g t (fun tk => add_to_outgoing_pool tk c a amt fee)
   | OCancel c a id => cancel_send g c a id
   | OIncreaseFee c t a id x => with_tok g t (fun tk => add_bridge_fee tk c a id x)
   | ORequestBatch c t to => with_tok g t (fun tk => request_batch tk c to)
   | OObserve c h => observe g c h ret
   | OBatchExecuted c h t n => with_tok g t (fun tk => observe g c h (batch_executed tk c n))
-  | OBridgeCallMsg c a r toks to =>
+  | OBridgeCallMsg c a r toks to =>   (* ValidateBasic: coins (zero amounts dropped) and data not both empty; data is empty *)
+      guard (existsb (fun p => 0 <? snd p) toks) ;;
       add_outgoing_bridge_call g c a r toks to ;;
       updR (fun r => set_frommsg ((c, get1 c (callid r)) :: frommsg r) r)
   | OBridgeCallResult c n ok => bridge_call_result g c n ok
   | OBridgeCallIn c r rf toks ok to => bridge_call_in g c r rf toks ok to
   | OConvertCoin t a b x => with_tok g t (fun tk => doB (convert_coin tk a b x))
   | OConvertERC20 t a b x => with_tok g t (fun tk => doB (convert_erc20 tk a b x))
-  | OConvertDenom t a b src tg x => with_tok g t (fun tk => doB (msg_convert_denom tk a b src tg x))
+  | OConvertDenom t a b src tg x => guard (0 <? x) ;; with_tok g t (fun tk => doB (msg_convert_denom tk a b src tg x))
   | OToggle t => toggle t
   | OPreCrossChain c t a amt fee nat => with_tok g t (fun tk => pre_cross_chain tk c a amt fee nat)
   | OPreBridgeCall c a r v toks to => pre_bridge_call g c a r v toks to
@@ -652,6 +688,8 @@ Definition run (g : cfg) (o : op) : M :=
                                               dep_add t 9 x)
   | OIbcToBase t a x => with_tok g t (fun tk => doB (ibc_to_base tk a x))
   | OBaseToIbc t a x => with_tok g t (fun tk => doB (base_to_ibc tk a x))
+  | OPreCrossChainIbc t a amt nat => with_tok g t (fun tk => pre_cross_chain_ibc tk a amt nat)
+  | OIbcRecv t a x => with_tok g t (fun tk => ibc_recv tk a x)
   end.
 
 (* transaction semantics: a failing operation leaves the state unchanged *)
